@@ -17,7 +17,7 @@ def sub_runs(sub, runs_by_tier):
 
 
 POLICY = {
-    "quick": [("full-dbg", ["--depth", "6"]), ("full-rel", ["--depth", "5", "--max-live", "4", "--max-objects", "5", "--sizes", "0,2,4,5"])],
+    "quick": [("full-dbg", ["--depth", "6"]), ("full-rel", ["--depth", "7"]), ("full-rel", ["--depth", "5", "--max-live", "4", "--max-objects", "5", "--sizes", "0,2,4,5"])],
     "thorough": [("full-rel", ["--depth", "8", "--max-seconds", "900"]), ("full-rel", ["--depth", "0", "--max-live", "2", "--max-objects", "3", "--sizes", "0,3,5", "--percents", "0,1,2,4,6", "--max-seconds", "900"]), ("full-dbg", ["--depth", "6"])],
 }
 
@@ -30,7 +30,7 @@ FWD = {"quick": [("full-dbg", []), ("full-rel", [])], "thorough": [("full-dbg", 
 
 PROBES = {"quick": [("full-dbg", [])], "thorough": [("full-dbg", []), ("full-rel", []), ("nofin-rel", []), ("min-dbg", [])]}
 CONTAINERS = {
-    "quick": [("full-dbg", ["--depth", "5"]), ("full-rel", ["--depth", "6", "--set", "full"])],
+    "quick": [("full-dbg", ["--depth", "5"]), ("full-rel", ["--depth", "7", "--set", "full"]), ("nofin-rel", ["--depth", "6", "--set", "full"])],
     "thorough": [("full-rel", ["--depth", "8", "--set", "full"]), ("full-dbg", ["--depth", "6", "--set", "full"]), ("nofin-rel", ["--depth", "7", "--set", "full"]), ("full-rel", ["--depth", "6", "--set", "full", "--n", "3"])],
 }
 
